@@ -387,8 +387,12 @@ def run(ctx):
             ctx.violation(f"suppress_warnings={case['suppress_warnings']} changes more than the suppressed warnings "
                           f"(first difference at item {n} of the filtered output; with: {o['outB'][max(0, n - 2):n + 1]})", case, finding=fid)
     lib_missing = sorted(set(alltags) - reached)
-    if lib_missing:
-        raise tlc.MachineryFailure(f"trigger library no longer reaches {lib_missing}")
+    for t in lib_missing:
+        # (the library reaches every one of these tags on the unchanged tree: a trigger whose warning no longer carries
+        # its tag is a verdict about the code)
+        names_ = [n for n, (_, _, tg) in lib.items() if tuple(tg) == tuple(t)]
+        ctx.violation(f"the catalogue warning [{t[0]}.{t[1]}] is no longer emitted with its tag by the document(s) that trigger it ({names_})",
+                      {"leg": "R-triggers", "tag": list(t), "documents": names_, "markdown": lib[names_[0]][0] if names_ else None})
     ctx.leg("R-triggers", pairs=nlib, tags_reached=sorted(".".join(t) for t in reached))
     ctx.leg("V", pairs=len(traces) - nlib)
     ctx.exhaustive = True
